@@ -2,6 +2,7 @@ import PhyVerif.Model.C03
 import PhyVerif.Spec.C03
 import PhyVerif.Lemmas.C03
 import PhyVerif.Lemmas.C03b
+import PhyVerif.Lemmas.C03c
 /-!
 # C03 — every route to a spike waveform yields the same zero-padded raw window
 Only property theorems + non-vacuity examples; proofs in `Lemmas/C03.lean`.
@@ -16,9 +17,12 @@ length (odd or even, also longer than the recording) and every channel list with
 extracted waveform is exactly the zero-padded window. (Domain: `Rect A nch` is what makes `ChOK nch ch` say "a valid
 channel of THIS recording"; the proof does not use it because both sides read an absent cell as `0`, where the
 real code raises IndexError for a channel ≥ nch and is outside the property. A spike sample outside `[0, dur)` is
-outside the quantifier as well: the real code raises AssertionError (the stacked window has the wrong height).) -/
+outside the quantifier as well: the real code raises AssertionError (the stacked window has the wrong height).
+`_hn`: the real code asserts `nsw > 0` (traces.py:598, 621); for `n = 0` both sides are the empty window.
+Sample and window length are mathematical integers: the real code converts both with `int(…)` before the window
+bounds are computed, whatever NumPy integer type (signed or unsigned, any width) the caller passes.) -/
 theorem extract_eq_window (A : List (List α)) (nch : Nat) (_hrect : Rect A nch) (s : Int)
-    (hs0 : 0 ≤ s) (hs : s < A.length) (n : Nat) (ch : List Int) (hch : ChOK nch ch) :
+    (hs0 : 0 ≤ s) (hs : s < A.length) (n : Nat) (_hn : 0 < n) (ch : List Int) (hch : ChOK nch ch) :
     extractWaveform A s n ch = window A s n ch :=
   Lemmas.extract_eq_window A nch s hs0 hs n ch hch
 
@@ -119,8 +123,9 @@ theorem subset_store_eq_raw (scale : α → α) (A : List (List α)) (nch : Nat)
   Lemmas.subset_store_eq_raw scale A nch ivs hT spikeSamples hss hsb spikeTemplates hst orders hto hord
     sel hsel hselb n hn nc query hq chq hchq
 
-/-- … and the written files always load: the store a reload sees holds exactly the selected ids and, per
-selected spike, the first `nc` channels of its template filled up with −1. -/
+/-- … and the written files always load: the store a reload sees holds exactly the selected ids, per selected
+spike the first `nc` channels of its template filled up with −1, and per selected spike the unit factor times the
+raw window of ITS sample on ITS channel row (all three fields, no existential). -/
 theorem subset_loads (scale : α → α) (A : List (List α)) (nch : Nat) (_hrect : Rect A nch)
     (ivs : List (Nat × Nat)) (hT : intervalsTile A.length ivs = true)
     (spikeSamples : List Int) (hss : spikeSamples.Pairwise (· ≤ ·))
@@ -130,37 +135,104 @@ theorem subset_loads (scale : α → α) (A : List (List α)) (nch : Nat) (_hrec
     (hord : ∀ o ∈ orders, ChOK nch o)
     (sel : List Nat) (hsel : sel.Pairwise (· < ·)) (hselb : ∀ i ∈ sel, i < spikeSamples.length)
     (n : Nat) (nc : Nat) :
-    ∃ w, loadSubset (saveSubset scale A ivs spikeSamples spikeTemplates orders sel n nc) =
+    loadSubset (saveSubset scale A ivs spikeSamples spikeTemplates orders sel n nc) =
       some ⟨sel, sel.map fun i =>
-        templateNChannels true (orders.getD (spikeTemplates.getD i 0) []) nc, w⟩ :=
-  Lemmas.subset_loads scale A nch ivs hT spikeSamples hss hsb spikeTemplates hst orders hto hord
+        templateNChannels true (orders.getD (spikeTemplates.getD i 0) []) nc,
+        sel.map fun i => scaleW scale (window A (spikeSamples.getD i 0) n
+          (templateNChannels true (orders.getD (spikeTemplates.getD i 0) []) nc))⟩ :=
+  Lemmas.subset_loads_eq scale A nch ivs hT spikeSamples hss hsb spikeTemplates hst orders hto hord
     sel hsel hselb n nc
 
-/-- `TemplateModel.get_waveforms`, store route: whenever the lookup succeeds its result is returned. -/
+/-- `TemplateModel.get_waveforms`, store route: when the lookup answers, its answer is returned — and then the
+three assertions of the lookup hold (every requested spike stored, `n > 0`, a query channel). -/
 theorem getWaveforms_stored (st : Store α) (A : List (List α)) (spikeSamples : List Int)
     (query chq : List Nat) (n : Nat) (W : List (List (List α)))
     (h : getSpikeWaveforms st query chq n = some W) :
-    getWaveforms (some st) A spikeSamples query chq n = W :=
-  Lemmas.getWaveforms_stored st A spikeSamples query chq n W h
+    getWaveformsE (some st) A spikeSamples query chq n = some W ∧ lookupAsserts st query chq n = true :=
+  ⟨Lemmas.getWaveforms_stored st A spikeSamples query chq n W h, Lemmas.asserts_of_lookup st query chq n W h⟩
+
+/-- … only AssertionError is caught (model.py:989): when the assertions hold and the lookup still raises (the
+IndexError of a store whose arrays have different numbers of rows), `get_waveforms` raises too — no fallback. -/
+theorem getWaveforms_propagates (st : Store α) (A : List (List α)) (spikeSamples : List Int)
+    (query chq : List Nat) (n : Nat) (ha : lookupAsserts st query chq n = true)
+    (h : getSpikeWaveforms st query chq n = none) :
+    getWaveformsE (some st) A spikeSamples query chq n = none :=
+  Lemmas.getWaveforms_propagates st A spikeSamples query chq n ha h
 
 /-- `TemplateModel.get_waveforms`, fallback: as soon as ONE requested spike is not in the store, every requested
 spike is read from the raw data and the result is exactly the zero-padded raw window on the query channels
-(valid channels of the recording; in-range spike ids and samples). -/
+(valid channels of the recording; in-range spike ids and samples; `n > 0`, `extract_waveforms` asserts it). -/
 theorem getWaveforms_unstored (st : Store α) (A : List (List α)) (nch : Nat) (_hrect : Rect A nch)
-    (spikeSamples : List Int) (query chq : List Nat) (n : Nat) (q : Nat) (hq : q ∈ query)
+    (spikeSamples : List Int) (query chq : List Nat) (n : Nat) (hn : 0 < n) (q : Nat) (hq : q ∈ query)
     (hns : q ∉ st.spikeIds) (hqb : ∀ q ∈ query, q < spikeSamples.length)
     (hsb : ∀ s ∈ spikeSamples, 0 ≤ s ∧ s < A.length) (hc : ∀ c ∈ chq, c < nch) :
-    getWaveforms (some st) A spikeSamples query chq n =
-      query.map fun q => window A (spikeSamples.getD q 0) n (chq.map Int.ofNat) :=
-  Lemmas.getWaveforms_unstored st A nch spikeSamples query chq n q hq hns hqb hsb hc
+    getWaveformsE (some st) A spikeSamples query chq n =
+      some (query.map fun q => window A (spikeSamples.getD q 0) n (chq.map Int.ofNat)) :=
+  Lemmas.getWaveforms_unstored st A nch spikeSamples query chq n hn q hq hns hqb hsb hc
 
 /-- `TemplateModel.get_waveforms` without a store: the raw-data route. -/
 theorem getWaveforms_raw (A : List (List α)) (nch : Nat) (_hrect : Rect A nch) (spikeSamples : List Int)
-    (query chq : List Nat) (n : Nat) (hqb : ∀ q ∈ query, q < spikeSamples.length)
+    (query chq : List Nat) (n : Nat) (hn : 0 < n) (hqb : ∀ q ∈ query, q < spikeSamples.length)
     (hsb : ∀ s ∈ spikeSamples, 0 ≤ s ∧ s < A.length) (hc : ∀ c ∈ chq, c < nch) :
-    getWaveforms none A spikeSamples query chq n =
-      query.map fun q => window A (spikeSamples.getD q 0) n (chq.map Int.ofNat) :=
-  Lemmas.getWaveforms_raw A nch spikeSamples query chq n hqb hsb hc
+    getWaveformsE none A spikeSamples query chq n =
+      some (query.map fun q => window A (spikeSamples.getD q 0) n (chq.map Int.ofNat)) :=
+  Lemmas.getWaveforms_raw A nch spikeSamples query chq n hn hqb hsb hc
+
+/-- **`save_spikes_subset_waveforms`, then `get_waveforms`** (what the correspondence op `subset` compares, both
+branches in one statement): on the model's own reloaded store, a request for spikes that were ALL selected is
+answered by the store — the unit factor times the raw window of each spike on the first `nc` channels of its
+template, zeros on the other query channels —, a request naming ONE spike that was not selected is answered from
+the raw data for every spike (unscaled windows on the query channels). Queries in any order, with repetitions. -/
+theorem getWaveforms_after_save (scale : α → α) (A : List (List α)) (nch : Nat) (_hrect : Rect A nch)
+    (ivs : List (Nat × Nat)) (hT : intervalsTile A.length ivs = true)
+    (spikeSamples : List Int) (hss : spikeSamples.Pairwise (· ≤ ·))
+    (hsb : ∀ s ∈ spikeSamples, 0 ≤ s ∧ s < A.length)
+    (spikeTemplates : List Nat) (hst : spikeTemplates.length = spikeSamples.length)
+    (orders : List (List Int)) (hto : ∀ t ∈ spikeTemplates, t < orders.length)
+    (hord : ∀ o ∈ orders, ChOK nch o)
+    (sel : List Nat) (hsel : sel.Pairwise (· < ·)) (hselb : ∀ i ∈ sel, i < spikeSamples.length)
+    (n : Nat) (hn : 0 < n) (nc : Nat) (_hnc : 0 < nc)
+    (query : List Nat) (hqb : ∀ q ∈ query, q < spikeSamples.length)
+    (chq : List Nat) (hchq : chq ≠ []) (_hchqd : chq.Nodup) (hc : ∀ c ∈ chq, c < nch) :
+    getWaveformsE (loadSubset (saveSubset scale A ivs spikeSamples spikeTemplates orders sel n nc))
+        A spikeSamples query chq n =
+      some (if query.all sel.contains then
+          query.map fun q => lookupSpec scale A (spikeSamples.getD q 0) n
+            (templateNChannels true (orders.getD (spikeTemplates.getD q 0) []) nc) chq
+        else query.map fun q => window A (spikeSamples.getD q 0) n (chq.map Int.ofNat)) :=
+  Lemmas.getWaveforms_after_save scale A nch ivs hT spikeSamples hss hsb spikeTemplates hst orders hto hord
+    sel hsel hselb n hn nc query hqb chq hchq hc
+
+/-! ### The window read through a reader (composition with C01) -/
+
+/-- The rows a READER returns for `traces[lo:hi]` with `0 ≤ lo < n_samples` and `lo < hi` — `hi` MAY EXCEED the
+number of samples, which C01's own domain (`InDom`: slice bounds in `[-n, n]`) does not cover —: for every backend
+(in-memory array, `.npy`, 1..k flat files, compressed file), every well-formed source and every chain of deferred
+channel selections `reader[:, c1][:, c2]…` (`ops`; `TemplateModel.traces` is `reader[:, channel_map]`), exactly
+`rowsSlice` of the concatenated recording — the expression the C03 model reads — with the selections applied to
+every row. (The reader clamps the stop bound with `min(v, n)`, traces.py:69; a start bound `< -n` is reduced modulo
+`n` instead — never issued here, `lo = max(0, t0)`.) -/
+theorem reader_rows_slice {β : Type} (src : C01.Source (List β)) (h : C01.SrcOK src) (r : C01.Reader (List β))
+    (hr : C01.build src = some r) (lo hi : Int) (hlo0 : 0 ≤ lo) (hlo : lo < src.concat.length) (hhi : lo < hi)
+    (ops : List C01.ColSel) :
+    C01.getItemOps r (.slice (some lo) (some hi)) ops =
+      .ok ((rowsSlice src.concat lo hi).map (C01.applyCols ops)) :=
+  Lemmas.reader_rows_slice src h r hr lo hi hlo0 hlo hhi ops
+
+/-- **Position of the spike relative to FILE and RECORDING boundaries, on readers**: the single read of
+`_extract_waveform` — `traces[max(0, t0):t1]` with `t0 = s − n//2`, `t1 = s + (n − n//2)` (traces.py:603-605) — for
+every spike inside the recording and every window length `n > 0`, on every reader of C01 and every column-selected
+derived reader, returns `rowsSlice A (max 0 t0) t1` of the concatenation `A` of the files: the very rows
+`extractWaveform A s n ch` starts from (`Model/C03.lean`), whichever files the window spans and however far it
+reaches beyond the last sample. With `extract_eq_window` (on `A`, after the column selections): the window
+extracted through the reader is the zero-padded raw window of the concatenated recording. -/
+theorem reader_window_rows {β : Type} (src : C01.Source (List β)) (h : C01.SrcOK src) (r : C01.Reader (List β))
+    (hr : C01.build src = some r) (s : Int) (hs0 : 0 ≤ s) (hs : s < src.concat.length) (n : Nat) (hn : 0 < n)
+    (ops : List C01.ColSel) :
+    C01.getItemOps r (.slice (some (max 0 (s - (n : Int) / 2))) (some (s + ((n : Int) - (n : Int) / 2)))) ops =
+      .ok ((rowsSlice src.concat (max 0 (s - (n : Int) / 2)) (s + ((n : Int) - (n : Int) / 2))).map
+        (C01.applyCols ops)) :=
+  Lemmas.reader_rows_slice src h r hr _ _ (by omega) (by omega) (by omega) ops
 
 /-! Non-vacuity (cells are integers) -/
 example : extractWaveform [[1, 2], [3, 4], [5, 6]] 1 8 [1, -1, 0] =
@@ -194,7 +266,37 @@ example : templateNChannels true [2, 0, 1] 2 = [2, 0] ∧ templateNChannels true
     templateNChannels false [1] 2 = [-1, -1] ∧ subsetWidth 0 12 = 12 ∧ subsetWidth 3 12 = 12 ∧
     subsetWidth 14 12 = 14 := by decide
 -- get_waveforms falls back to the raw data when a requested spike is not stored
-example : getWaveforms (α := Int) (some ⟨[1], [[0]], [[[5]]]⟩) [[1, 2], [3, 4]] [0, 1] [0, 1] [1] 1 =
-    [[[2]], [[4]]] := by decide
+example : getWaveformsE (α := Int) (some ⟨[1], [[0]], [[[5]]]⟩) [[1, 2], [3, 4]] [0, 1] [0, 1] [1] 1 =
+    some [[[2]], [[4]]] := by decide
+-- … answers from the store when all are (channel 1 is not held for spike 1: zero) …
+example : getWaveformsE (α := Int) (some ⟨[1], [[0]], [[[5]]]⟩) [[1, 2], [3, 4]] [0, 1] [1] [1, 0] 1 =
+    some [[[0, 5]]] := by decide
+-- … and does NOT catch the IndexError of a store with fewer channel rows than ids (assertions hold, lookup raises)
+example : lookupAsserts (α := Int) ⟨[1, 2], [[0]], [[[5]], [[6]]]⟩ [2] [0] 1 = true ∧
+    getSpikeWaveforms (α := Int) ⟨[1, 2], [[0]], [[[5]], [[6]]]⟩ [2] [0] 1 = none ∧
+    getWaveformsE (α := Int) (some ⟨[1, 2], [[0]], [[[5]], [[6]]]⟩) [[1, 2], [3, 4]] [0, 1, 1] [2] [0] 1 = none := by
+  decide
+-- the reloaded subset store, all three fields (spikes 1 and 2 selected, factor 2)
+example :
+    loadSubset (saveSubset (α := Int) (fun x => 2 * x) [[1, 2, 3], [4, 5, 6], [7, 8, 9], [10, 11, 12]] [(0, 4)]
+      [0, 1, 3, 3] [1, 0, 1, 0] [[2, 0, 1], [1]] [1, 2] 2 2) =
+    some ⟨[1, 2], [[2, 0], [1, -1]], [[[6, 2], [12, 8]], [[16, 0], [22, 0]]]⟩ := by decide
+-- save, then get_waveforms: spike 2 then spike 1 (both selected, reverse order); spike 0 was not selected
+example :
+    getWaveformsE (loadSubset (saveSubset (α := Int) (fun x => 2 * x)
+      [[1, 2, 3], [4, 5, 6], [7, 8, 9], [10, 11, 12]] [(0, 4)] [0, 1, 3, 3] [1, 0, 1, 0] [[2, 0, 1], [1]] [1, 2] 2 2))
+      [[1, 2, 3], [4, 5, 6], [7, 8, 9], [10, 11, 12]] [0, 1, 3, 3] [2, 1] [1, 2] 2 =
+    some [[[16, 0], [22, 0]], [[0, 6], [0, 12]]] ∧
+    getWaveformsE (loadSubset (saveSubset (α := Int) (fun x => 2 * x)
+      [[1, 2, 3], [4, 5, 6], [7, 8, 9], [10, 11, 12]] [(0, 4)] [0, 1, 3, 3] [1, 0, 1, 0] [[2, 0, 1], [1]] [1, 2] 2 2))
+      [[1, 2, 3], [4, 5, 6], [7, 8, 9], [10, 11, 12]] [0, 1, 3, 3] [1, 0] [1, 2] 2 =
+    some [[[2, 3], [5, 6]], [[0, 0], [2, 3]]] := by decide
+-- a window that crosses the file boundary AND the end of the recording, read through the reader of two flat files
+-- (rows 2 + 1, `C01.exFlat`) and through `reader[:, [1, 0]]`: spike at the last sample 2, n = 4: rows [0, 4) ∩ [0, 3)
+example : (C01.build C01.exFlat).map (fun r => C01.getItemOps r (.slice (some (max 0 (2 - (4 : Int) / 2)))
+      (some (2 + ((4 : Int) - (4 : Int) / 2)))) [.idx [1, 0]]) =
+    some (.ok ((rowsSlice C01.exFlat.concat 0 4).map (C01.applyCols [.idx [1, 0]]))) := by decide +kernel
+example : (rowsSlice C01.exFlat.concat 0 4).map (C01.applyCols [.idx [1, 0]]) = [[2, 1], [4, 3], [6, 5]] := by
+  decide +kernel
 
 end PhyVerif.C03
